@@ -652,7 +652,7 @@ func ruleC06R3(r *Run) {
 		if !isNilConst(p.resolve(p.res(ret, 3))) {
 			continue
 		}
-		r.Check("loadFailFile#result", ret.Pos(), strings.HasSuffix(p.expr(p.res(ret, 0)), "[0]") && strings.Contains(p.expr(p.res(ret, 1)), "strconv.ParseUint(") && p.expr(p.res(ret, 2)) == "φbuf",
+		r.Check("loadFailFile#result", ret.Pos(), strings.HasSuffix(p.expr(p.res(ret, 0)), "[0]") && strings.Contains(p.expr(p.res(ret, 1)), "strconv.ParseUint(") && isAppendPhi(p, p.res(ret, 2), "strconv.ParseUint("),
 			"returns (split[0], parsed seed, words)", "loadFailFile's success return is ("+p.expr(p.res(ret, 0))+", "+p.expr(p.res(ret, 1))+", "+p.expr(p.res(ret, 2))+")")
 	}
 }
@@ -804,6 +804,26 @@ func ruleC06R6(r *Run) {
 		}
 	}
 	r.Check("checkTB#save-guard.only", sv.Instr.Pos(), extra == 0, "no other condition on doCheck's results suppresses the save", "the save is additionally guarded by conditions on doCheck's results")
+	// the result the guard tests: doCheck names a fail file (#4) only when the failure was reproduced from that file;
+	// every return after the random search carries "" there, whatever -rapid.failfile said
+	if dfn := r.MustFn("doCheck"); dfn != nil {
+		fbs := p.callsTo(dfn, "findBug")
+		nAfter := 0
+		for _, ret := range returnsOf(dfn) {
+			if len(fbs) != 1 || len(ret.Results) < 5 || !dominates(fbs[0].Instr, ret) {
+				continue
+			}
+			nAfter++
+			okEmpty := true
+			for _, a := range p.alternatives(p.res(ret, 4), 0) {
+				if c, isC := constString(p.resolve(a.Val)); !isC || c != "" {
+					okEmpty = false
+				}
+			}
+			r.Check("doCheck#return-after-random.file-empty", ret.Pos(), okEmpty, "a failure found by the random search is reported with an empty fail-file name, so that it is saved", "doCheck returns "+p.expr(p.res(ret, 4))+" as the fail-file name of a failure found by the random search: checkTB saves only when that name is empty, so the new failure is never persisted and the stale file is advertised")
+		}
+		r.Floor("returns of doCheck after the random search", nAfter, 3)
+	}
 	tgt := p.resolve(sv.Arg(0))
 	okT := false
 	if e, ok := tgt.(*ssa.Extract); ok && e.Index == 1 {
@@ -1289,4 +1309,23 @@ func (p *Program) safeRuneLits(lits []string, ex string, depth int) bool {
 		}
 	}
 	return false
+}
+
+// isAppendPhi: v is a loop-carried slice built by appending elements whose rendering contains want.
+func isAppendPhi(p *Program, v ssa.Value, want string) bool {
+	ph, ok := p.resolve(v).(*ssa.Phi)
+	if !ok {
+		return false
+	}
+	found := false
+	for _, e := range ph.Edges {
+		if c, ok := p.resolve(e).(*ssa.Call); ok && p.calleeKey(c.Common()) == "builtin:append" && p.resolve(c.Common().Args[0]) == ssa.Value(ph) {
+			for _, a := range p.variadicArgs(c.Common().Args[1]) {
+				if a != nil && strings.Contains(p.expr(a), want) {
+					found = true
+				}
+			}
+		}
+	}
+	return found
 }
